@@ -53,13 +53,20 @@ def abs (v : VecSt) : List Cell := v.cells.take v.len
 /-! ### Backends -/
 
 /-- `MemBuilder::build(element_layout)`: initial capacity -/
-def buildCap (bk : Backend) (size : Nat) : Res Nat :=
+def STACK_MAX_ALIGN : Nat := 64
+
+def buildCap (bk : Backend) (size align : Nat) : Res Nat :=
   match bk with
   | .heap => .ok 0
   | .reloc => .ok 0
   | .empty => .ok 0
-  | .stack bytes => .ok (if size = 0 then USIZE_MAX else bytes / size)
-  | .stackN n bytes => if n * size ≤ bytes then .ok n else .panic "Insufficient storage!"
+  | .stack bytes =>
+    if align ≤ STACK_MAX_ALIGN then .ok (if size = 0 then USIZE_MAX else bytes / size)
+    else .panic "Unsupported alignment!"
+  | .stackN n bytes =>
+    if align ≤ STACK_MAX_ALIGN then
+      if n * size ≤ bytes then .ok n else .panic "Insufficient storage!"
+    else .panic "Unsupported alignment!"
 
 def resizable : Backend → Bool
   | .heap => true
